@@ -460,6 +460,67 @@ def regex_facts_any(snap, tree, meth, groups):
         return runtime_regex(snap, meth, groups)
 
 
+# ------------------------------------------------------------------ status patterns: exact source + structural form
+
+_UNIT = re.compile(rb'(?:(\\t|\\s)(\*|\+)?)?\(\\d\+\)')
+_STRUCT = re.compile(rb'^(\(\?m\)\^|\^)?((?:[A-Za-z_: ]|\\[n])+?)((?:(?:(?:\\t|\\s)(?:\*|\+)?)?\(\\d\+\))+)$')
+
+
+def compiled_pattern(snap, meth):
+    """The compiled regex object that is the default argument of Process.<meth> in the IMPORTED module: what the
+    code really runs with, however the source spells it (literal, helper function, module constant)."""
+    ps_mod = snap_psutil(snap)
+    f = getattr(ps_mod._pslinux.Process, meth)
+    seen = 0
+    while hasattr(f, "__wrapped__") and seen < 5:
+        f = f.__wrapped__
+        seen += 1
+    pats = [d for d in (f.__defaults__ or ()) if isinstance(d, re.Pattern)]
+    if len(pats) != 1 or not isinstance(pats[0].pattern, bytes):
+        raise NotRecognised("%s: no single compiled bytes pattern among the defaults" % meth)
+    return pats[0]
+
+
+def pattern_source(snap, tree, meth):
+    """(exact pattern bytes, MULTILINE?) — from the `def` line literal when it is one, else from the compiled object;
+    both must agree when both exist."""
+    rt = compiled_pattern(snap, meth)
+    extra = rt.flags & ~re.compile(b"").flags & ~re.M
+    if extra:
+        raise NotRecognised("%s: flags %r" % (meth, rt.flags))
+    fn = _proc_fn(tree, meth)
+    defaults = [d for d in fn.args.defaults + fn.args.kw_defaults if d is not None]
+    comp = [d for d in defaults if isinstance(d, ast.Call) and extract.dotted(d.func) == "re.compile"]
+    if len(comp) == 1 and comp[0].args and isinstance(comp[0].args[0], ast.Constant) \
+            and isinstance(comp[0].args[0].value, bytes) and comp[0].args[0].value != rt.pattern:
+        raise NotRecognised("%s: source literal and imported module disagree" % meth)
+    src = ast.unparse(fn)
+    if ".findall(data)" not in src or "self._read_status_file()" not in src:
+        raise NotRecognised("%s: findall(data) over _read_status_file() not found" % meth)
+    return rt.pattern, bool(rt.flags & re.M)
+
+
+def pattern_struct(snap, tree, meth, groups):
+    """structural form: (key bytes, anchored, (ws_class, min, unbounded))"""
+    pat, multiline = pattern_source(snap, tree, meth)
+    m = _STRUCT.match(pat)
+    if not m:
+        raise NotRecognised("%s: pattern %r is not [(?m)^]KEY(SEP(\\d+)){n}" % (meth, pat))
+    pre, key, grp = m.group(1), m.group(2), m.group(3)
+    units = _UNIT.findall(grp)
+    if len(units) != groups or b"".join((a + q + rb"(\d+)") for a, q in units) != grp:
+        raise NotRecognised("%s: groups %r" % (meth, grp))
+    if len(set(units)) != 1:
+        raise NotRecognised("%s: different separators %r" % (meth, units))
+    atom, quant = units[0]
+    if pre == b"^" and not multiline:
+        raise NotRecognised("%s: ^ without MULTILINE" % meth)
+    if pre is None and multiline:
+        pass        # MULTILINE without ^ changes nothing
+    sep = (atom == rb"\s", 0 if (quant == b"*" or atom == b"") else 1, quant in (b"*", b"+"))
+    return key.replace(rb"\n", b"\n"), pre is not None, sep
+
+
 def facts(snap, F):
     tree = extract.parse_module(snap, "_pslinux.py")
     memo = {}
@@ -511,10 +572,16 @@ def facts(snap, F):
     F.try_add("statusBinary", "Bool", lambda: B(status_binary(tree)),
               "_read_status_file opens the file with open_binary (no universal-newline translation)")
     for nm, meth, g in (("uid", "uids", 3), ("gid", "gids", 3), ("thr", "num_threads", 1), ("ctx", "num_ctx_switches", 1)):
-        F.try_add(nm + "Key", "List Nat", lambda meth=meth, g=g: extract.lean_bytes(once(meth, lambda: regex_facts_any(snap, tree, meth, g))[0]),
-                  "%s(): literal text of the regex before the (\\t(\\d+)){%d} groups" % (meth, g))
-        F.try_add(nm + "Anchored", "Bool", lambda meth=meth, g=g: B(once(meth, lambda: regex_facts_any(snap, tree, meth, g))[1]),
+        st = lambda meth=meth, g=g: once("st:" + meth, lambda: pattern_struct(snap, tree, meth, g))
+        F.try_add(nm + "Key", "List Nat", lambda st=st: extract.lean_bytes(st()[0]),
+                  "%s(): literal text of the regex before the (SEP(\\d+)){%d} groups" % (meth, g))
+        F.try_add(nm + "Anchored", "Bool", lambda st=st: B(st()[1]),
                   "%s(): the regex is anchored to a line start ((?m)^ / re.MULTILINE)" % meth)
+        F.try_add(nm + "Sep", "Bool × Nat × Bool",
+                  lambda st=st: "(%s, %d, %s)" % (B(st()[2][0]), st()[2][1], B(st()[2][2])),
+                  "%s(): separator before each (\\d+) group: (class is \\s rather than \\t, minimal count, has a */+ quantifier); \\t = (false, 1, false)" % meth)
+        F.try_add(nm + "PatternSrc", "List Nat", lambda meth=meth: extract.lean_bytes(once("src:" + meth, lambda: pattern_source(snap, tree, meth))[0]),
+                  "%s(): the exact source of the compiled status regex (def-line literal = pattern object of the imported module)" % meth)
 
     tm = lambda: once("tm", lambda: tmap_facts(snap))
     bt = lambda: once("bt", lambda: boot_time_facts(tree))
